@@ -304,7 +304,7 @@ def check_pipeline(case, v):
         if g["kind"] == "stopping":
             f = GameFacts(g["game"])
             try:
-                if f.T > T_MAX:
+                if f.too_slow:
                     v.inconclusive = "T>300"
                     return
             except OracleError as e:
